@@ -500,6 +500,45 @@ Definition rcb (v : variant) (fuel : nat) (sched : N -> nat -> stree) (D k : nat
 
 Definition seq_sched : N -> nat -> stree := fun _ _ => SLeaf.
 
+(* premise of the C04 theorem, decidable: the root box (f64 min/max, then
+   `as f32`) has finite bounds that enclose the binary32 coordinates (true
+   whenever `as f32` is monotone; evaluated on every generated case) *)
+Fixpoint box_ok_from (a : nat) (bb : box spec_float) (its : list item32) : bool :=
+  match bb with
+  | [] => true
+  | (mn, mx) :: t =>
+    is_finite mn && is_finite mx
+    && forallb (fun it => match nth_opt (co it) a with
+                          | Some c => negb (flt c mn) && negb (flt mx c)
+                          | None => true
+                          end) its
+    && box_ok_from (S a) t its
+  end.
+Definition box_ok32 (D : nat) (pts : list (list spec_float)) (ws : list Z) : bool :=
+  match bbox32 D 0 pts with
+  | Some bb => box_ok_from 0 bb (mk_items 0 pts ws)
+  | None => false
+  end.
+
+(* one cut search on a single axis, judged by check_split on the two sides
+   the reordering produces (regression witnesses, Proofs/RcbRegress.v) *)
+Definition split_check (v : variant) (fuel : nat) (tol : spec_float) (xs : list (keyed spec_float))
+           (mn mx : spec_float) : option bool :=
+  let aw := map (fun x => (fst x, wt (snd x))) xs in
+  let sum := sumZ (map snd aw) in
+  match search spec_float flt fle (f32_mid (v_safe_mid v)) f32_sub f32_add f32_zero f32_inf (tol_test tol)
+               (v_old v) (v_by_coord v) (v_probe_max v) fuel (fun _ => SLeaf) 0 xs sum mn mx None with
+  | Ok (AllLeft _) => Some (check_split spec_float flt (tol_test tol) aw [])
+  | Ok (SplitAt i _ _ _) =>
+    match nth_opt xs i with
+    | Some p => Some (check_split spec_float flt (tol_test tol)
+                        (filter (fun q => flt (fst q) (fst p)) aw)
+                        (filter (fun q => negb (flt (fst q) (fst p))) aw))
+    | None => None
+    end
+  | _ => None
+  end.
+
 (* checkers at the instance *)
 Definition check_bisect32 (D k : nat) (pts : list (list spec_float)) (ids : list N) : bool :=
   check_bisect spec_float flt f32_valid D k (map (map f64_to_f32) pts) ids.
